@@ -9,6 +9,7 @@ NOTE = ("Trusted: Coq 8.16.1 kernel + vm_compute; harness/gen_tables.py and the 
         "Biopython/re/fs behaviour as modelled (see DESIGN.md section 7). No axioms (Print Assumptions: closed).")
 
 CLAIMED = {
+ "C20": "Theorems: an embedded archive with unique ids named after its members iterates each key once, len = number of keys, every yielded key is found with that id, absent keys are not; a combination of any sequence of members looks a key up in the first member holding it, its key set is the union, each key once; a directory (abstract stem/match, instantiated with string models of splitext and the case-insensitive glob) with distinct stems is coherent and ignores sub-directories and non-matching files; the five archive indices regenerated from the working tree satisfy the hypotheses by reflection over all entries (resistance and regular-file flags included). Partial by nature: tar/gzip, GenBank parsing and fs are the environment; the real registries are run on the real archives (all keys) and on generated directories/combinations and compared with the model.",
  "C07": "Theorem for all stores (reference lists, feature tables, citation qualifiers) and all interruption points of the call (after any number of dereferencing assignments): the inputs read exactly as before, only citation lists are ever touched, a repeated call starts from the same store; the no-restoration variant is refuted; _assembly.py tied by comparing the citation state after each of 1-4 consecutive calls on shared records (success, warning, invalid vector, duplicate, invalid module, missing module, injected exception in the j-th fragment extraction with the state recorded at that point, malformed citation) with the model; deep-snapshot and fresh-copy oracle.",
  "C10": "Theorems on the re-referencing fold for all lists of features and citations: every product index points to the reference its source cited, the product list has each cited reference exactly once and nothing else, in first-use order; inputs unchanged (C07); _assembly.py tied by comparing product references and citation indices with the model on generated assemblies with shared/repeated/unused references over consecutive calls; independent label-based oracle including the bracketed format and equality with the citation-free assembly.",
  "C06": "Invariant proof for the cache state machine over all histories of (class, record) queries: every stored pattern is the structure of the class owning it, hence every answer (is_valid, overhangs, target) equals the answer of the same query issued first; class identity of the 85 kit classes proved by reflection over the table regenerated from the working tree; the pinned MRO lookup is refuted on a witness; _structured.py tied by replaying every ordered pair of kit classes and random histories with run-time subclasses in forked interpreters against the machine, plus a fresh-interpreter oracle.",
